@@ -138,6 +138,10 @@ def run(ctx):
     for m, vals in kcases:
         l2k.k_leg(ctx, "l2-der:" + m["name"], [(m, vals)], [("der", "ber", "der", "ber")],
                   skip=lambda syn, t, env, m=m: c02.der_skip(syn, t, env, m.get("tagdefault")) is not None)
+    # K leg: the L2 Lean XER model (lean/Asn1cModel/L2/Xer.lean, theorems in lean/props/C01XER.json) vs C:
+    # BASIC-XER / CANONICAL-XER encoder bytes and decoder results on own encodings and on variants
+    from .. import c01_xer
+    c01_xer.run_xer(ctx)
     agg = collections.Counter()
     nviol = 0
     for (kind, why, sig), n in fails.items(): agg[(kind, why)] += n
